@@ -276,6 +276,21 @@ fn collections(acc: &mut Acc, max_len: usize) {
             other => bad(acc, "vec-i128/long".into(), format!("Vec<i128> from 100 elements = {:?}", other.map(|r| r.map(|v| v.len()).map_err(|e| format!("{e:?}"))))),
         }
     }
+    // very long lists (allocation caps, chunking): every element must be converted
+    for n in [4095usize, 4096, 4097, 70_000] {
+        for bad_last in [false, true] {
+            acc.count("executions", 1);
+            let mut elems: Vec<Value> = (0..n).map(|i| Value::Int((i % 100) as i128)).collect();
+            if bad_last {
+                elems[n - 1] = Value::Int(1000);
+            }
+            match catch(|| Vec::<i8>::try_from(Value::Vec(elems.clone()))) {
+                Ok(Ok(v)) if !bad_last && v.len() == n && v.iter().enumerate().all(|(i, x)| *x as usize == i % 100) => {}
+                Ok(Err(reval::Error::NumericOverflow(_))) if bad_last => {}
+                other => bad(acc, format!("vec-i8/very-long/{n}"), format!("Vec<i8> from {n} elements (last one out of range: {bad_last}) = {:?}", other.map(|r| r.map(|v| v.len()).map_err(|e| format!("{e:?}"))))),
+            }
+        }
+    }
     // non-collection sources
     for src in sources() {
         let val = src.to_value();
